@@ -189,5 +189,30 @@ def uniformDraw (a b u : K) : K := a + (b - a) * u
 def randomRadialBounds (rin rout b : K) (avoidCenter : Bool) : K × K :=
   (if avoidCenter then rin + b else rin, rout - b)
 
+/-- `x ** n` by repeated multiplication (core Lean, generic number type) -/
+def powN (x : K) : Nat → K
+  | 0 => ((1:Nat) : K)
+  | n + 1 => x * powN x n
+
+/-- `CartesianGrid.get_random_point(boundary_distance=b, coords="grid")` for the uniform variates
+`us` (one per axis) -/
+def Grid.randomPointCart (g : Grid K) (b : K) (us : List K) : List K :=
+  g.axes.zipWith (fun a u => randomCoord a.lo a.hi b u) us
+
+/-- the uniform draws of the radial `get_random_point`: `rng.uniform(r_min**d, r_max**d)` with
+`d = dim` for polar / spherical grids (the `d`-th root taken afterwards is external), and
+`rng.uniform(r_min**2, r_max**2)`, `rng.uniform(z_min, z_max)` for cylindrical grids -/
+def Grid.randomRadialDraw (g : Grid K) (b : K) (avoid : Bool) (us : List K) : List K :=
+  let zero : K := ((0:Nat) : K)
+  match g.cls, g.axes with
+  | .polar, [a] | .spherical, [a] =>
+    let rb := randomRadialBounds a.lo a.hi b avoid
+    [uniformDraw (powN rb.1 g.dim) (powN rb.2 g.dim) (us.headD zero)]
+  | .cylindrical, [a, z] =>
+    let rb := randomRadialBounds a.lo a.hi b avoid
+    [uniformDraw (powN rb.1 2) (powN rb.2 2) (us.headD zero),
+     uniformDraw (z.lo + b) (z.hi - b) (us.tail.headD zero)]
+  | _, _ => []
+
 end
 end PdeVerif.Grids
